@@ -33,6 +33,7 @@ type report struct {
 	PkgVarSites    []string `json:"pkgvar_access_sites"`
 	PkgVars        []string `json:"package_level_vars"`
 	YieldSites     int      `json:"yield_sites"`
+	SyncSites      []string `json:"sync_call_sites"`
 	OsCallSites    []string `json:"os_call_sites"`
 	RewrittenFiles []string `json:"rewritten_files"`
 }
@@ -87,6 +88,7 @@ func main() {
 				return true
 			}
 			_ = inFunc
+			recvIsPtr, recvKnown := map[*ast.CallExpr]bool{}, map[*ast.CallExpr]bool{}
 			for _, decl := range f.Decls {
 				fd, ok := decl.(*ast.FuncDecl)
 				if !ok || fd.Body == nil {
@@ -94,6 +96,16 @@ func main() {
 				}
 				astutil.Apply(fd.Body, func(c *astutil.Cursor) bool {
 					n := c.Node()
+					if call, ok := n.(*ast.CallExpr); ok {
+						// remember the receiver's type of a sync method call before the receiver expression is rewritten
+						if sel, ok := call.Fun.(*ast.SelectorExpr); ok {
+							if tv, ok := p.TypesInfo.Types[sel.X]; ok && tv.Type != nil {
+								_, isPtr := tv.Type.Underlying().(*types.Pointer)
+								recvIsPtr[call] = isPtr
+								recvKnown[call] = true
+							}
+						}
+					}
 					switch x := n.(type) {
 					case *ast.RangeStmt:
 						// (a) map ranges in every package of the module (today only package deb has any)
@@ -139,6 +151,41 @@ func main() {
 					return true
 				}, func(c *astutil.Cursor) bool {
 					// (c) yields at the top of every loop body of the parser packages (post-order so that replaced nodes are final)
+					// (e) calls of sync.Mutex / sync.RWMutex / sync.Once methods in every package of the module go through
+					// verifhook so that a cooperative scheduler can model the wait (post-order: the receiver expression has
+					// been rewritten already)
+					if call, ok := c.Node().(*ast.CallExpr); ok {
+						if sel, ok := call.Fun.(*ast.SelectorExpr); ok {
+							if fn, ok := p.TypesInfo.Uses[sel.Sel].(*types.Func); ok && fn.Pkg() != nil && fn.Pkg().Path() == "sync" {
+								hook := map[string]string{"Lock": "Lock", "Unlock": "Unlock", "RLock": "RLock", "RUnlock": "RUnlock", "Do": "OnceDo"}[fn.Name()]
+								recv := ""
+								if sig, ok := fn.Type().(*types.Signature); ok && sig.Recv() != nil {
+									t := sig.Recv().Type()
+									if pt, ok := t.(*types.Pointer); ok {
+										t = pt.Elem()
+									}
+									if n, ok := t.(*types.Named); ok {
+										recv = n.Obj().Name()
+									}
+								}
+								okRecv := recv == "Mutex" || recv == "RWMutex" || (recv == "Once" && fn.Name() == "Do")
+								if hook != "" && okRecv && recvKnown[call] {
+									site++
+									rep.SyncSites = append(rep.SyncSites, fmt.Sprintf("%d=%s %s.%s", site, p.Fset.Position(call.Pos()), recv, fn.Name()))
+									var arg ast.Expr = sel.X
+									if !recvIsPtr[call] {
+										arg = &ast.UnaryExpr{Op: token.AND, X: sel.X}
+									}
+									args := []ast.Expr{arg}
+									args = append(args, call.Args...)
+									args = append(args, &ast.BasicLit{Kind: token.INT, Value: fmt.Sprint(site)})
+									c.Replace(&ast.CallExpr{Fun: &ast.SelectorExpr{X: ast.NewIdent("verifhook"), Sel: ast.NewIdent(hook)}, Args: args})
+									changed = true
+									return true
+								}
+							}
+						}
+					}
 					if !parserPkg {
 						return true
 					}
@@ -198,8 +245,8 @@ func main() {
 	}
 	rb, _ := json.MarshalIndent(rep, "", " ")
 	os.WriteFile(filepath.Join(*out, "report.json"), rb, 0o644)
-	fmt.Printf("instr: %d files rewritten: %d map ranges, %d package-variable uses, %d yields, %d os calls\n",
-		len(rep.RewrittenFiles), len(rep.MapRangeSites), len(rep.PkgVarSites), rep.YieldSites, len(rep.OsCallSites))
+	fmt.Printf("instr: %d files rewritten: %d map ranges, %d package-variable uses, %d yields, %d os calls, %d sync calls\n",
+		len(rep.RewrittenFiles), len(rep.MapRangeSites), len(rep.PkgVarSites), rep.YieldSites, len(rep.OsCallSites), len(rep.SyncSites))
 }
 
 func usesImport(f *ast.File, path string) bool {
